@@ -679,6 +679,10 @@ def rule_cache(prog: Program) -> List[Instance]:
             # every parameter must reach every non-dispatch return for pure tuple keys
             rets = [r for r in walk_own(kf.node) if isinstance(r, ast.Return) and r.value is not None]
             only_tuple = len(rets) == 1 and isinstance(rets[0].value, ast.Tuple)
+            if only_tuple:
+                # a parameter unpacked into locals first (`src, dst = crs_pair`) reaches the key through them
+                korg = Origins(kf)
+                used = used | {r_ for n_ in ast.walk(rets[0].value) if isinstance(n_, ast.Name) for r_ in korg.roots(n_)}
             if only_tuple and set(kparams) - used:
                 out.append(Instance("R-CACHE", f"{fi.qual}#KEYCOMPLETE", BAD, f"key tuple `{short(rets[0].value)}` omits {sorted(set(kparams) - used)}", kf.where()))
             else:
